@@ -35,6 +35,55 @@ CLAIMS = {
    ref="DESIGN §4 C08",
    note="The inverse theorem assumes NoClose for the intermediate tier (C07's separation hypothesis). Rounding: the repaired "
         "arithmetic paths are compared bit for bit and checked by the oracle on decimals; no universal float theorem."),
+ "C05": dict(
+   text="Theorems: (construct_wf) ANY tier the IntervalTier constructor returns is well-formed (time order, start<end, no overlap, "
+        "inside its span, stripped labels - str.strip() idempotence is proved), for arbitrary entry lists; it refuses only with "
+        "TextgridStateError / TimelessTextgridTierException; (step_wf) each of the 14 tier operations maps a well-formed tier to a "
+        "well-formed tier whenever it returns; (reachable_wf) induction over operation sequences of ANY length; validate() is True "
+        "on well-formed tiers. Histories of the real code are compared step-wise with the model (bit-exact) and every returned "
+        "tier is re-checked for well-formedness, validate() agreement and praatio-only exceptions.",
+   ref="DESIGN §4 C05",
+   note="Operations that delete by tolerant equality carry the separation hypothesis (OpOk). 'raises a praatio error' is "
+        "checked by the oracle; one known finding (deleteEntry of an absent entry raises ValueError). Point-tier operations and "
+        "the floating-point clause: correspondence + oracle."),
+ "C09": dict(
+   text="Theorems: editTimestamps never fails in silence/warning mode (including empty / fully clipped tiers), moves every entry by "
+        "exactly the offset (drop if end<=0, clip start at 0), keeps labels/order, span = hull of old span and moved entries "
+        "(never shrinks, grown just enough); 'error' mode raises OutOfBounds iff a moved entry leaves the old span; +x then -x "
+        "restores the entries when nothing was clipped and entries are non-negative (with a proved counterexample and an iff for the "
+        "negative-time case); appendTier = A's entries ++ B's shifted by A.hi, span [A.lo, A.hi+B.hi]; Textgrid-level name lists for "
+        "editTimestamps and appendTextgrid(onlyMatchingNames). Tied to the code by bit-exact differential runs.",
+   ref="DESIGN §4 C09", note="PointTier.appendTier entry order at coinciding times is decided by the sort (checked, not stated as a theorem)."),
+ "C10": dict(
+   text="Theorems (separation hypothesis SepTimes on the set of boundary times): difference is labelled exactly where A is and B is "
+        "not, with A's labels, same span; intersection has exactly one entry <max s, min e, 'a-b'> per overlapping pair (count "
+        "included) and its label function is the pairing of both; difference/intersection partition A's labelled time and never "
+        "overlap; union is labelled exactly where either operand is (nothing invented or lost) and every input entry lies inside "
+        "one output entry, so overlapping inputs are fused; mergeLabels keeps exactly the intervals of A that overlap B with their "
+        "extent. Exhaustive small-scope differential family (all pairs on a 4/6-cell grid x 4 ops) plus random pairs.",
+   ref="DESIGN §4 C10", note="Label order inside a fused union entry and point-tier union: correspondence + oracle only."),
+ "C11": dict(
+   text="Theorems: no collision -> the entry is added, nothing else changes, span grows to min/max with the new entry; 'error' -> "
+        "CollisionError; 'replace' -> exactly the colliding entries are removed; 'merge' -> they are replaced by one entry with the "
+        "joint extent and the '-'-join of all labels in tuple order (the merged label is proved stripped); deleteEntry removes "
+        "exactly the entry / raises when no entry matches; every admissible insert/delete history of any length keeps the tier "
+        "well-formed. Step-wise bit-exact comparison along random histories.",
+   ref="DESIGN §4 C11", note="NoClose separation hypothesis explicit. Point tiers: two theorems (no collision, error) + correspondence."),
+ "C14": dict(
+   text="Theorems: nearest() returns the first minimiser; lessThanOrEqual's 1e-14 slack made explicit; snap moves x to the nearest "
+        "reference iff within maxDifference (both directions); dejitter keeps count/order/labels, never reorders (snapping is "
+        "monotone), fails with TextgridStateError iff an interval collapses, ArgumentError on an empty reference; point tiers "
+        "likewise up to label order at ties; morph keeps labels, gives selected intervals the target durations, preserves gaps, "
+        "first start and trailing gap, SafeZipException on count mismatch; alignBoundaries leaves names and the reference tier "
+        "untouched and dejitters every other tier.",
+   ref="DESIGN §4 C14", note="The inclusive threshold on decimals is compared bit for bit; the oracle leaves a 1e-12 band around maxDifference."),
+ "C15": dict(
+   text="Theorems: find (exact / substring) indices ascending and exact; getNonEntries + entries tile [0, hi] (unique cover, "
+        "touching, positive); timestamps strictly ascending with exactly the boundary set; getValuesInIntervals = filter; exact "
+        "value lookup with the carried index invariant (multi-point); fuzzy lookup returns a nearest sample; intervalOverlapCheck "
+        "= interval arithmetic (3 variants); invertIntervalList is the complement within bounds; equality reflexive, symmetric, "
+        "discriminating; validate() iff definition (tier, point tier, textgrid).",
+   ref="DESIGN §4 C15", note="Regex find and percentThreshold are checked by the oracle only (re / float division are parameters)."),
  "C06": dict(
    text="Theorems over unbounded Int timestamps and entry lists of any length: the five-arm window/interval cascade equals "
         "interval arithmetic in every mode; crop of a well-formed tier never fails for a<b, returns exactly the per-mode selection, "
